@@ -1172,6 +1172,9 @@ def r16h(ctx, rep, rule="R16h"):
         k += 1
         key = "%s|string_number|false#%d" % (rule, k)
         after = any(f.dominates(pb, bb) and pb != bb for pb in parses)
+        from ..shapes import guard_shapes
+        if not after and any(re.search(r"(str::<str>|<impl str>|String)::is_empty\(.*\)=T$", g) for g in guard_shapes(f, bb, None, 3)):
+            after = True        # the empty string is no numeral for any parser
         (rep.ok if after else rep.fail)(
             rule, key, "string->number answers #f on the parser's verdict" if after else
             "string->number answers #f before consulting Number's parser: a pre-filter decides which spellings are numbers, and "
